@@ -59,7 +59,8 @@ var urlSamples = []string{"http://example.com/", "https://example.org/a?b=c&d=e"
 	"rel.html", "#frag", "?q=1", "mailto:a@b.c", "ftp://f.example/x", "javascript:alert(1)", "JaVaScRiPt:alert(1)",
 	" http://sp.example/ ", "http://a b/", "data:image/png;base64,iVBORw0KGgo=", "data:text/html;base64,PHNjcmlwdD4=",
 	"data:image/gif;base64,R0lG\nODlh", "data:image/png;base64,iVBOR!!", "data:image/jpeg;base64,/9j/4AAQ", "data:image/png;base64,AAA",
-	"data:image/png;base64,iVBORw0KGgo=#frag", "app://open/x", "tel:+123", "http://good.example/p/x?y=1", "http://bad.example/",
+	"data:image/png;base64,iVBORw0KGgo=#frag", "DATA:image/png;base64,iVBORw0KGgo=", "data&#58;image/gif;base64,R0lGODlh",
+	"data:image&#x2F;gif;base64,R0lGODlh", "app://open/x", "tel:+123", "http://good.example/p/x?y=1", "http://bad.example/",
 	"http://[::1]:80/", "http://%zz/", ":bad", "HTTP://UP.example/", "http://u:p@h.example/?a=1&amp;b=<2>", "https://good.example/p/"}
 
 var schemes = []string{"http", "https", "mailto", "ftp", "tel", "data", "app", "javascript"}
@@ -525,8 +526,8 @@ func VocabOf(rc Recipe, fresh string) Vocab {
 			}
 		case "AllowDataURIImages":
 			for _, u := range urlSamples {
-				if strings.HasPrefix(u, "data:") {
-					addHU(u)
+				if strings.Contains(strings.ToLower(u), "data") {
+					addHU(u) // every spelling of a data URI, also upper-case and entity-encoded ones
 				}
 			}
 		}
@@ -665,7 +666,11 @@ func (g *inGen) entityObfuscate(s string) string {
 
 func (g *inGen) styleValue() string {
 	var sb strings.Builder
-	for i, n := 0, g.r.Range(1, 4); i < n; i++ {
+	ndecl := g.r.Range(1, 4)
+	if g.r.Bool(0.08) {
+		ndecl = g.r.Range(8, 24) // the long style attributes of HTML e-mail
+	}
+	for i, n := 0, ndecl; i < n; i++ {
 		prop := g.r.Pick(g.v.StyleProps)
 		if len(g.v.HotProps) > 0 && g.r.Bool(0.6) {
 			prop = g.r.Pick(g.v.HotProps)
@@ -882,6 +887,30 @@ func GenTargetedInput(r *RNG, rc Recipe, fresh string, n int) []byte {
 		sb.Write(probes[r.Intn(len(probes))])
 		if r.Bool(0.3) {
 			sb.WriteString(r.Pick([]string{" ", "\n", "text", "&amp;"}))
+		}
+	}
+	return []byte(sb.String())
+}
+
+// GenManyDistinct produces an input with several hundred DISTINCT URLs, element names and
+// style values (plus a few repeats): bounded caches and rings inside the library overflow.
+func GenManyDistinct(r *RNG, v Vocab, fresh string) []byte {
+	var sb strings.Builder
+	n := r.Range(280, 600)
+	for i := 0; i < n; i++ {
+		k := i
+		if r.Bool(0.15) {
+			k = r.Intn(i + 1) // a repeat
+		}
+		switch r.Intn(4) {
+		case 0:
+			fmt.Fprintf(&sb, `<a href="http://good.example/p/%s-%d">l%d</a>`, fresh, k, k)
+		case 1:
+			fmt.Fprintf(&sb, `<img src="https://example.org/i/%s/%d.png" alt="i">`, fresh, k)
+		case 2:
+			fmt.Fprintf(&sb, `<my-n%d title="t">x</my-n%d>`, k, k)
+		default:
+			fmt.Fprintf(&sb, `<p style="width: %dpx; color: red">p</p>`, k)
 		}
 	}
 	return []byte(sb.String())
